@@ -8,6 +8,14 @@ ALSO={'C02':['C15','C03'],'C06':['C15','C01'],'C10':['C12','C11'],'C08':['C04'],
 only=sys.argv[1:] 
 if subprocess.run('git -C %s status --porcelain'%R,shell=True,capture_output=True,text=True).stdout.strip():
     print('REPO DIRTY'); sys.exit(2)
+# the checks rewrite /verif/evidence on every run: keep the unchanged-tree evidence aside and put it back at the end
+import shutil, atexit, tempfile
+_ev=tempfile.mkdtemp(prefix='evidence-keep-')
+shutil.copytree(V+'/evidence',_ev+'/evidence')
+def _restore():
+    shutil.rmtree(V+'/evidence',ignore_errors=True); shutil.copytree(_ev+'/evidence',V+'/evidence'); shutil.rmtree(_ev,ignore_errors=True)
+    shutil.rmtree(V+'/replays',ignore_errors=True)
+atexit.register(_restore)
 claimed={c['property_id'] for c in json.load(open(V+'/MANIFEST.json'))['checks']}
 res={}
 for d in sorted(glob.glob(V+'/seeded/*/')):
